@@ -17,6 +17,7 @@ import (
 
 	"github.com/prometheus/alertmanager/config"
 	"github.com/prometheus/alertmanager/dispatch"
+	"github.com/prometheus/alertmanager/pkg/labels"
 
 	"verif/harness/gen"
 	"verif/harness/model"
@@ -106,11 +107,11 @@ func optsDiff(n *model.Node, r *dispatch.Route) string {
 
 func TestRouteDifferential(t *testing.T) {
 	run := vf.Cur()
-	sub := run.Sub("route-differential", "random routing tree (depth<=4, fan-out<=4, continue, legacy match/match_re, negative/regex matchers) as YAML -> config.Load -> dispatch.NewRoute; compared with the reference model on every RouteOpts field of every node and on Match() for 24 label sets; a case is one (tree,label set) pair, non-trivial when the tree has >=2 nodes; distinct by (tree,label set,result)", 100)
+	sub := run.Sub("route-differential", "random routing tree (depth<=4, fan-out<=4, continue, legacy match/match_re, negative/regex matchers) as YAML -> config.Load -> dispatch.NewRoute; compared with the reference model on every RouteOpts field of every node and on Match() for 24 label sets; the tree is then built a second time from the same loaded configuration and both trees are compared again; a case is one (tree,label set) pair, non-trivial when the tree has >=2 nodes; distinct by (tree,label set,result)", 100)
 	trees := run.N(800, 80000)
 	vf.Parallel(t, trees, 16, func(t *testing.T, i int) {
 		r := sub.Rand(i)
-		spec := gen.RouteTree(r, gen.RouteOpt{MaxDepth: 1 + r.Intn(4), MaxFanout: 1 + r.Intn(4), Receivers: receivers, Legacy: true, Timers: true})
+		spec := gen.RouteTree(r, gen.RouteOpt{MaxDepth: 1 + r.Intn(4), MaxFanout: 1 + r.Intn(4), Receivers: receivers, Legacy: true, MixedMatchers: true, Timers: true})
 		y := configYAML(spec)
 		cfg, err := config.Load(y)
 		if err != nil {
@@ -167,6 +168,61 @@ func TestRouteDifferential(t *testing.T) {
 			}
 			if sub.WantSample() && len(want) > 1 {
 				sub.Sample(map[string]any{"config": y, "labels": l, "routes": gp})
+			}
+		}
+		// the running program builds the tree more than once from one loaded configuration (API and
+		// dispatcher, at every load): a second build must give the same routing, and must not disturb the first
+		real2 := dispatch.NewRoute(cfg.Route, nil)
+		paths2 := realPaths(real2)
+		// node by node: the matcher set of every node of BOTH trees is the reference node's matcher set
+		matcherSet := func(ms labels.Matchers) string {
+			var out []string
+			for _, m := range ms {
+				v := m.Value
+				if (m.Type == labels.MatchRegexp || m.Type == labels.MatchNotRegexp) && strings.HasPrefix(v, "^(?:") && strings.HasSuffix(v, ")$") {
+					v = v[4 : len(v)-2] // deprecated match_re values are kept in their anchored form
+				}
+				out = append(out, fmt.Sprintf("%s %s %q", m.Name, m.Type, v))
+			}
+			sort.Strings(out)
+			return strings.Join(out, " , ")
+		}
+		for which, tree := range map[string]map[*dispatch.Route]string{"first tree (after the second build)": paths, "second tree": paths2} {
+			by := map[string]*dispatch.Route{}
+			for rr, p := range tree {
+				by[p] = rr
+			}
+			ref.Walk(func(n *model.Node) {
+				rr := by[n.Path]
+				if rr == nil {
+					return
+				}
+				var want []string
+				for _, m := range n.AllMatchers {
+					want = append(want, fmt.Sprintf("%s %s %q", m.Name, m.Op, m.Value))
+				}
+				sort.Strings(want)
+				sub.Count("node_matcher_sets_compared", 1)
+				if got := matcherSet(rr.Matchers); got != strings.Join(want, " , ") {
+					sub.Violation("route-node-matchers-differ-after-building-the-tree-twice", map[string]any{"seed": sub.Seed(i), "config": y, "path": n.Path, "tree": which, "real": got, "ref": strings.Join(want, " , ")})
+				}
+			})
+		}
+		for _, l := range lsets {
+			var wp, g1, g2 []string
+			for _, n := range ref.Match(l) {
+				wp = append(wp, n.Path+"→"+n.Receiver)
+			}
+			for _, g := range real.Match(toLS(l)) {
+				g1 = append(g1, paths[g]+"→"+g.RouteOpts.Receiver)
+			}
+			for _, g := range real2.Match(toLS(l)) {
+				g2 = append(g2, paths2[g]+"→"+g.RouteOpts.Receiver)
+			}
+			sub.Count("second_build_comparisons", 1)
+			if ws := strings.Join(wp, " "); ws != strings.Join(g2, " ") || ws != strings.Join(g1, " ") {
+				sub.Violation("match-differs-after-building-the-tree-twice", map[string]any{"seed": sub.Seed(i), "config": y, "labels": l, "first_tree_now": g1, "second_tree": g2, "ref": wp})
+				break
 			}
 		}
 		sub.Count("trees", 1)
